@@ -152,9 +152,9 @@ Definition wstep (w : wop) (s : state) : list rec * list N * list N :=
   | WPatch k st =>
       match lookup k (recs s) with
       | Some r => if ralive r
-                  then (* Save with the sticky expiry-changed flag re-inserts the index entry *)
+                  then (* a body patch does not touch the expiry index *)
                        (replace k {| rk := k; rst := st; rgrp := rgrp r; rexp := rexp r; rg := rg r; ralive := true |} (recs s),
-                        (if Z.eqb (rexp r) 0 then rem k (slice s) else ins k (rem k (slice s))), rem k (cl s))
+                        slice s, cl s)
                   else (recs s, slice s, cl s)
       | None => (recs s, slice s, cl s)
       end
@@ -235,12 +235,14 @@ Definition step (c : cfg) (t : nat) (s : state) : option state :=
               if still_there c k g (recs s) then
                 let e := match nexp with Some e => e | None => rexp x end in
                 let x' := {| rk := k; rst := nst; rgrp := rgrp x; rexp := e; rg := rg x; ralive := true |} in
-                (* Save: the record's expiry-changed flag is sticky (set by the first SetExpirationTime
-                   and never reset), so every Save drops and re-adds the index entry, whether or not
-                   this patch touched the expiry; a record that is not in the main index is added as
-                   new.  Either way the key is (re-)inserted here unless it has no expiry. *)
-                let sl := if Z.eqb e 0 then rem k (slice s) else ins k (rem k (slice s)) in
-                let cl' := rem k (cl s) in
+                (* Save: SaveFunction refreshes the expiry-index entry (drop + re-add unless the new
+                   expiry is 0) only when this patch called SetExpirationTime (the change flags are
+                   reset after every save); a record that is not in the main index is added as new.
+                   An untouched expiry leaves the index alone: the record comes back at the final
+                   re-index. *)
+                let touched := match nexp with Some _ => true | None => false end || negb (ralive x) in
+                let sl := if touched then (if Z.eqb e 0 then rem k (slice s) else ins k (rem k (slice s))) else slice s in
+                let cl' := if touched then rem k (cl s) else cl s in
                 Some (mk s t (replace k x' (recs s)) sl cl'
                          (bad s ++ (if ralive x then [] else [4%N])) (PeSel sel r nst nexp) [(k, 0%N)])
               else Some (mk s t (recs s) (slice s) (cl s) (bad s) (PeSel sel r nst nexp) [(k, 2%N)])
@@ -360,8 +362,8 @@ Fixpoint oracle (taken : list N) (fl : list (nat * N)) (dead ri : list N) (evs :
       if existsb (fun q => N.eqb (snd q) 0 && memN (fst q) dead) res then 14%N
       else oracle taken (filter (fun q => negb (Nat.eqb (fst q) t)) fl) dead ri r final
   | OReidx t ks :: r =>
-      (* keys of t's selection that are in flight with ANOTHER in-place claimer right now *)
-      let hit := filter (fun k => existsb (fun q => N.eqb (snd q) k && negb (Nat.eqb (fst q) t)) fl) ks in
+      (* keys of t's selection that are held by ANOTHER claimer right now (shifted, or in flight in place) *)
+      let hit := filter (fun k => memN k taken || existsb (fun q => N.eqb (snd q) k && negb (Nat.eqb (fst q) t)) fl) ks in
       oracle taken fl dead (ri ++ hit) r final
   | OPut k :: r => oracle (rem k taken) (filter (fun q => negb (N.eqb (snd q) k)) fl) (rem k dead) (rem k ri) r final
   | ODel k :: r => oracle taken fl (k :: dead) ri r final
